@@ -4,6 +4,7 @@ package main
 // Every verdict is computed from the source currently in -repo; nothing in the repository is executed.
 
 import (
+	"encoding/json"
 	"time"
 	"flag"
 	"fmt"
@@ -45,11 +46,17 @@ func main() {
 	replay := flag.String("replay", "", "violations file to replay (re-runs the property and prints the listed constructs)")
 	selftest := flag.Bool("selftest", false, "run only the rule-sensitivity self-test of the property")
 	list := flag.Bool("list", false, "list properties")
+	inventory := flag.Bool("inventory", false, "print the whole-program reachability inventory as JSON (thorough tier helper)")
 	flag.BoolVar(&verbose, "v", false, "print every obligation")
 	ov := overlayFlag{}
 	flag.Var(ov, "overlay", "file=replacement (repeatable): analyse the tree with file replaced")
 	flag.Parse()
 
+	if *inventory {
+		b, _ := json.Marshal(runInventory(*repo))
+		fmt.Println(string(b))
+		return
+	}
 	if *list {
 		ids := []string{}
 		for id := range registry {
